@@ -385,3 +385,31 @@ def check(ctx):
     r6_project_coordinates(ctx)
     r7_metadata(ctx)
     r8_defaults(ctx)
+
+
+# names of functions whose role findings are outside every property (reported as notes, never as violations)
+OUTSIDE = {"verde.coordinates._check_rolling_window_overlap": "only decides whether a warning is printed (DESIGN 5)"}
+
+
+def check_thorough(ctx):
+    """whole-package sweep of the axis/role checker: every function of the library, not only the anchors of R1-R8"""
+    from .. import roles
+    n_fn = n_sink = 0
+    for qn in sorted(ctx.pkg.functions):
+        if qn.startswith("verde.datasets.") or qn in OUTSIDE:
+            continue
+        fa = ctx.an.fa(qn)
+        if not fa.ok:
+            continue
+        n_fn += 1
+        before = len(ctx.obs)
+        roles.check_paths(ctx, "R9", qn, fa.paths, roles.RETURNS.get(qn), sweep=True)
+        n_sink += len(ctx.obs) - before
+    for qn, why in OUTSIDE.items():
+        if qn in ctx.pkg.functions:
+            ctx.note("role findings in %s are not evaluated: %s" % (qn, why))
+    ctx.check("R9", "verde|whole-package-role-sweep", True if n_fn > 100 and n_sink > 60 else None,
+              "the axis/role checker visited %d functions and %d typed sinks of the whole package" % (n_fn, n_sink))
+
+
+RULES["R9"] = "thorough tier: no typed sink anywhere in the package mixes easting and northing roles (whole-package sweep)"
